@@ -11,7 +11,7 @@ int main(int argc, char** argv)
 	std::string mode = argv[1];
 	bool const do_fork = !(argc > 4 && std::string(argv[4]) == "nofork");
 	// the library prints diagnostics on stdout/stderr; the trace goes to the out file
-	std::freopen("/dev/null", "w", stdout);
+	if (!getenv("VERIF_KEEP_STDOUT")) std::freopen("/dev/null", "w", stdout);
 	if (!getenv("VERIF_KEEP_STDERR")) std::freopen("/dev/null", "w", stderr);
 	if (mode == "kernel") return vh::run_blocks(argv[2], argv[3], do_fork, vh::run_kernel_block);
 	if (mode == "pcap") return vh::run_blocks(argv[2], argv[3], do_fork, vh::run_pcap_block);
